@@ -672,4 +672,44 @@ theorem C16_override_raw_number_is_wrong :
 example : (overrideInit Gen.updBranches .rate (.scalar 1) (some "year") (.list 2 (some "day")) (some "week") (some 1) true).bind Par.perStep
     = .ok (.scalar 14) := by decide +kernel
 
+
+/-! ## Round 6: table index values as written (`ss.standardize_data`, regenerated `Gen.stdIndexOps`) -/
+
+/-- **Obligation on the regenerated statement list**: no statement of `standardize_data` rewrites the reference times or the age
+    starts of a table — they are copied from the data, filled in when absent, or re-ordered. Stops elaborating when a statement
+    casts / rounds / re-keys the `year` or `age` column. -/
+theorem C16_table_index_values_preserved :
+    columnKept Gen.stdIndexOps "year" = true ∧ columnKept Gen.stdIndexOps "age" = true := by decide
+
+/-- the lookups see the reference times / age starts exactly as written -/
+theorem C16_standardize_keeps_written (f : Rat → Rat) (written : List Rat) :
+    standardizeCol Gen.stdIndexOps "year" f written = written ∧ standardizeCol Gen.stdIndexOps "age" f written = written := by
+  unfold standardizeCol
+  rw [C16_table_index_values_preserved.1, C16_table_index_values_preserved.2]
+  simp
+
+/-- **Nearest year of the table as written**: whatever the reference times are (whole years, mid-period stamps, survey dates), the
+    row applied at `now` is the one `nearest` selects among the WRITTEN times, so `C16_nearest_year_minimal` speaks about the user's table -/
+theorem C16_table_row_is_nearest_written (f : Rat → Rat) (written : List Rat) (now : Rat) :
+    tableRow Gen.stdIndexOps f written now = nearest written now := by
+  unfold tableRow; rw [(C16_standardize_keeps_written f written).1]
+
+/-- **Age bin of the table as written** (with `C16_table_lookup`: the last written start ≤ age) -/
+theorem C16_table_bin_is_written (f : Rat → Rat) (written : List Rat) (age : Rat) :
+    tableBin Gen.stdIndexOps f written age = ageBin written age := by
+  unfold tableBin; rw [(C16_standardize_keeps_written f written).2]
+
+/-- sensitivity (kernel-evaluated): if one statement stored the reference times as whole numbers, a table stamped 2000.5 / 2001.75
+    would apply its SECOND row at 2000.6 (and the age starts 0 / 0.5 would put a 3-month-old into the second bin) -/
+theorem C16_rewritten_index_is_wrong :
+    tableRow [("*", "copy"), ("year", "rewrite")] (fun y => (y.floor : Rat)) [4001/2, 8007/4] (10003/5) = 1 ∧
+    tableRow Gen.stdIndexOps (fun y => (y.floor : Rat)) [4001/2, 8007/4] (10003/5) = 0 ∧
+    tableBin [("*", "copy"), ("age", "rewrite")] (fun y => (y.floor : Rat)) [0, 1/2] (1/4) = 2 ∧
+    tableBin Gen.stdIndexOps (fun y => (y.floor : Rat)) [0, 1/2] (1/4) = 1 := by
+  refine ⟨by decide +kernel, by decide +kernel, by decide +kernel, by decide +kernel⟩
+
+/-- non-vacuity: a mid-year table, queried between its stamps -/
+example : tableRow Gen.stdIndexOps id [4001/2, 4003/2, 4005/2] (8005/4) = 1 := by decide +kernel
+
+
 end StarsimModel.C16
